@@ -135,6 +135,23 @@ class Recorder:
         k = grid(p)
         self.log('GetPos', i=i + 1, ret=np.where(k == OFFGRID, OFFGRID, np.mod(k, N)).tolist(), incell=incell)
 
+    def frame(self, i, how):
+        """One frame as a pymatgen Structure: traj[t] (also negative t), get_structure(t), or iteration."""
+        t = self.objs[i]
+        n = len(t)
+        idx = int(self.rng.integers(0, n))
+        if how == 'index':
+            s = t[idx - n] if self.rng.random() < 0.3 else t[idx]
+        elif how == 'get_structure':
+            s = t.get_structure(idx)
+        else:
+            for q, s in enumerate(t):
+                if q == idx:
+                    break
+        k = grid(np.asarray(s.frac_coords, dtype=float))
+        self.log('Frame', i=i + 1, t=idx, how=how, ret=np.where(k == OFFGRID, OFFGRID, np.mod(k, N)).tolist(),
+                 sp=[SP_NAMES.index(x.symbol) for x in s.species])
+
     def get_disp(self, i):
         self.log('GetDisp', i=i + 1, ret=grid(self.objs[i].displacements).tolist())
 
@@ -394,6 +411,8 @@ def random_behaviour(b, rng, family, orientation, n_steps, acts, max_objs=6, Tma
             rec.get_pos(i)
         elif act == 'GetDisp':
             rec.get_disp(i)
+        elif act == 'Frame':
+            rec.frame(i, str(rng.choice(['index', 'get_structure', 'iterate'])))
         elif act == 'CumDisp':
             rec.cum_disp(i)
         elif act == 'Dist':
